@@ -45,7 +45,7 @@ FROZEN = 1_500_000_000         # what time.time() answers while the implementati
 PLAIN_KEYS = ["DESCRIPTION", "SLOT", "EAPI", "KEYWORDS", "RDEPEND", "USE", "IUSE", "repository",
               "COUNTER", "PKGMANAGER"]
 KINDS = {"vinstall": "KVInstall", "vuninstall": "KVUninstall", "vreplace": "KVReplace",
-         "binstall": "KBInstall", "breplace": "KBInstall", "buninstall": "KBUninstall"}
+         "binstall": "KBInstall", "breplace": "KBReplace", "buninstall": "KBUninstall"}
 
 
 # --------------------------------------------------------------------------- Coq rendering
@@ -522,14 +522,15 @@ def k_replace_neither(ex):
             and not ex["old_listed"] and not ex["new_listed"])
 
 
-def k_bin_keeps_old(ex):
-    """binpkg replace whose old and new tarball names differ (upgrade, or 1.0 vs 1.0-r0): the completed
-    operation never removes the old tarball, a fresh view lists both"""
-    return ex["kind"] == "breplace" and ex["old"] != ex["new"] and ex["old_listed"] and ex["new_listed"] \
-        and ex.get("completed", False)
+def k_bin_both_listed(ex):
+    """binpkg replace whose old and new tarball names differ, crash exactly between the rename of the
+    new tarball and the unlink of the old one: both (complete) tarballs are listed"""
+    return (ex["kind"] == "breplace" and ex["old"] != ex["new"] and ex["lo"] < ex["m"] < ex["hi"]
+            and ex["old_listed"] and ex["new_listed"])
 
 
-CLASSES = [("vdb-rmtree-partial", k_rmtree_partial), ("vdb-replace-neither", k_replace_neither)]
+CLASSES = [("vdb-rmtree-partial", k_rmtree_partial), ("vdb-replace-neither", k_replace_neither),
+           ("binpkg-replace-both-listed-window", k_bin_both_listed)]
 
 
 # --------------------------------------------------------------------------- one scenario
@@ -661,6 +662,10 @@ def line_spans(d):
 def window_of(res):
     """(lo, hi, n_rm) in model-op indices, from the structure of the scenario"""
     sc, ops = res["sc"], res["ops"]
+    if sc["kind"] == "breplace":
+        lo = [i for i, o in enumerate(ops) if o[0] == "Rename" and o[1][-1].startswith(".tmp.") and o[1][-1].endswith(".tbz2")][0]
+        old = ("r", sc["cat"], sc["old"] + ".tbz2")
+        return lo, lo + 1 + sum(1 for o in ops if o[0] == "Unlink" and o[1] == old), 0
     if sc["kind"] not in ("vreplace", "vuninstall"):
         return 0, 0, 0
     old = ("r", sc["cat"], sc["old"])
@@ -719,11 +724,7 @@ def judge(chk, res):
                         bad.append({"what": f"{key} of the installed package is not the new package's",
                                     "got": vals[key], "scenario": sc})
         if "old" in sc and sc.get("old") != sc.get("pf") and listed(vn, sc["cat"], sc["old"]):
-            ex = {"kind": sc["kind"], "cat": sc["cat"], "old": sc["old"], "new": sc.get("pf"), "completed": True,
-                  "old_listed": True, "new_listed": listed(vn, sc["cat"], sc.get("pf")),
-                  "variant": sc.get("variant")}
-            if not (k_bin_keeps_old(ex) and chk.known_finding("binpkg-replace-keeps-old", ex)):
-                bad.append({"what": "the removed package is still listed after completion", "scenario": sc})
+            bad.append({"what": "the removed package is still listed after completion", "scenario": sc})
     return bad
 
 
